@@ -583,6 +583,30 @@ def _can_shape(ctx, R):
     auth = C.calls_to(ctx, f, 'placement.policy:authorize')
     rets = [n for n in own_nodes(f.node) if isinstance(n, ast.Return)]
     ok = len(auth) == 1 and any(r.value is auth[0] for r in rets)
+    # ... and the target it passes on is the caller's target: the parameter
+    # is replaced only when it is None (by the request's own identity)
+    tparam = f.params[2] if len(f.params) > 2 else None
+    okt = ok
+    whyt = 'ok'
+    if ok:
+        a3 = auth[0].args[2] if len(auth[0].args) > 2 else C.kwarg(
+            auth[0], 'target')
+        okt = isinstance(a3, ast.Name) and a3.id == tparam
+        whyt = src(a3) if a3 is not None else 'no target argument'
+        for n_ in own_nodes(f.node):
+            if isinstance(n_, ast.Assign) and any(
+                    isinstance(t, ast.Name) and t.id == tparam
+                    for t in n_.targets):
+                ls = [(ast.unparse(e), p)
+                      for e, p in C.conds(n_, f.node, implicit=True)]
+                if ('%s is None' % tparam, True) not in ls:
+                    okt = False
+                    whyt = 'line %d rebinds %s under %s' % (
+                        n_.lineno, tparam, ls)
+    R.ob('R16.4', 'can:target-unchanged', okt,
+         'the policy target a handler passes is what the rule is evaluated '
+         'against (only a missing target is replaced by the caller\'s own '
+         'project and user)', whyt, func=f)
     R.ob('R16.4', 'can:delegates', ok,
          'can() returns policy.authorize(self, action, target)',
          '%d authorize calls' % len(auth), func=f)
